@@ -60,7 +60,7 @@ class C17(Property):
     assumptions = [
         "C17 is partial: the tolerance bounds are tested on the generated inputs, not proved",
         "oracle tolerances: Bezier 0.5, arc 0.1 (curve->path) and float slack (path->curve), Catmull chord bound per span, osu!-mode Catmull +6.0; float slack 4e-5*scale + 2e-3",
-        "a perfect-curve segment may follow either its arc or its Bezier fallback unless it is clearly non-degenerate (|cross| > 1, < 900 sub-points), where the arc is required",
+        "a perfect-curve segment may follow either its arc or its Bezier fallback unless it is clearly non-degenerate (|cross| > 1, < 900 sub-points); arcs whose estimated f32 centre error exceeds 0.05 px are the known finding F13, where the arc is required",
         "domain: coordinates in [-4096, 4096], natural length (no requested length)",
     ]
     nontrivial_rule = ("Bezier 2..10 points, three-point arcs in all orientations / near-collinear / tiny and huge radii, Catmull 2..8 points, linear, "
@@ -75,6 +75,7 @@ class C17(Property):
                 cases.append(Case(g.curve_line("curvegeo", rng.choice(g.MODES), None,
                                                [(0.0, 0.0, "P"), (float(a[0]), float(a[1]), None), (float(b[0]), float(b[1]), None)]),
                                   tags=("arc-grid",)))
+        cases.append(Case(g.curve_line("curvegeo", 1, None, [(404.0, -3.0, "P"), (279.0, 148.9139862060547, None), (358.74554443359375, 51.998291015625, None)]), tags=("witness-F13",)))
         n = 2500 if tier == "quick" else 40000
         for _ in range(n):
             k = rng.random()
@@ -113,7 +114,7 @@ class C17(Property):
 
     def known(self, case, out, findings):
         if out.startswith("FAIL") and ("beyond the bound" in out or "does not end at" in out or "does not start at" in out
-                                       or "from the path" in out):
+                                       or "from the path" in out or "nonfinite-natural-path" in out):
             if g.ill_conditioned_arc_predicate(case.line):
                 for f in findings:
                     if f.get("predicate") == "ill_conditioned_arc":
